@@ -252,15 +252,28 @@ def run(report, p):
     ok = sp is not None and "__bool__" not in spec.methods and "__len__" not in spec.methods
     if sp is not None:
         g = cfg_of(sp)
-        # every path to exit passes an append of existing or defaults
+        # every path to exit passes an append of a list that cannot be empty: the defaults, `<existing> or <defaults>`, or the
+        # existing patterns under a truthiness test of that parameter
+        from .common import canon_dep
+
         adders = set()
+        all_guaranteed = True
         for call, tg in p.calls[sp.qual]:
             if any(t.endswith("_append_patterns_list") for t in tg) and call.args:
-                a0 = norm(call.args[0])
-                if a0 == sp.params[1] or "default_ignore_list" in a0:
-                    adders.add(g.node_for(call).id)
+                a = call.args[0]
+                a0 = norm(a)
+                is_default = "default_ignore_list" in a0 and not isinstance(a, ast.BoolOp)
+                or_default = isinstance(a, ast.BoolOp) and isinstance(a.op, ast.Or) and "default_ignore_list" in norm(a.values[-1]) and norm(a.values[0]) == sp.params[1]
+                bare = a0 == sp.params[1]
+                if not (is_default or or_default or bare):
+                    continue
+                adders.add(g.node_for(call).id)
+                if bare:
+                    deps = {canon_dep(t.ast, l) for t, l in g.control_deps(g.node_for(call)) if t.kind == "test"}
+                    if (sp.params[1], "T") not in deps:  # truthiness: a non-empty list (an `is not None` test would admit [])
+                        all_guaranteed = False
         path = g.find_path(g.entry, {g.exit.id}, avoid=adders)
-        ok = ok and path is None and len(adders) >= 2
+        ok = ok and path is None and len(adders) >= 1 and all_guaranteed
         dfl = p.funcs.get("ascmhl.ignore.default_ignore_list")
         dv = None
         if dfl is not None:
@@ -335,6 +348,8 @@ def run(report, p):
     def check_typed(schema, value, f, tname, what, node):
         if tname is None:
             return
+        if isinstance(value, ast.Name) and f is not None:
+            value = _resolve_in_scope(f, value)  # a local holding the formatted value
         info = schema.simple_info(tname)
         base = info["base"] if tname in schema.stypes else tname
         if info["enum"]:
@@ -459,6 +474,25 @@ def refine_templates(p, report, pr, mdoc, lemma_ignore):
             for c in el.children:
                 if isinstance(c, Elem) and c.tag == "path":
                     c.attrs = [a for a in c.attrs if a.name != "size"]
+
+
+def _resolve_in_scope(f, name_node):
+    """the single assignment of a local name that is visible at the use: same block or an enclosing block of the use"""
+    cands = [n for n in walk_no_nested(f.node) if isinstance(n, ast.Assign) and len(n.targets) == 1 and isinstance(n.targets[0], ast.Name) and n.targets[0].id == name_node.id]
+    if len(cands) == 1:
+        return cands[0].value
+    # several bindings of the name (e.g. once per loop): the closest one preceding the use in an enclosing block
+    anc = []
+    x = parent(name_node)
+    while x is not None:
+        anc.append(x)
+        x = parent(x)
+    best = None
+    for c in cands:
+        if parent(c) in anc and c.lineno <= getattr(name_node, "lineno", 10 ** 9):
+            if best is None or c.lineno > best.lineno:
+                best = c
+    return best.value if best is not None else name_node
 
 
 def author_wiring(report, p, pr):
